@@ -3,6 +3,7 @@
 package c07
 
 import (
+	"os"
 	"github.com/bbockelm/cedar/ccb"
 	"bytes"
 	"context"
@@ -383,6 +384,51 @@ func runCase(c Case) (string, stats) {
 			if d := deadRoutes(); len(d) > 0 {
 				return fail("after a sweep the command map still holds %d route(s) to sessions that are no longer in the cache: %v", len(d), d)
 			}
+		case "inherit":
+			// sessions inherited from a parent daemon through the environment, as a child started by a master gets
+			// them: the parent session (declaring the commands op.V selects valid) and the family session (declaring
+			// none). They are filed, untagged, under the parent's address: each command leads to the session that
+			// declared it, nothing else does.
+			paddr := "<" + s.addr + ">"
+			mintSeq++
+			parentSID, familySID := fmt.Sprintf("parent:%d:%d", os.Getpid(), mintSeq), fmt.Sprintf("family:%d:%d", os.Getpid(), mintSeq)
+			var pc []string
+			var pcmds []int
+			for i, cm := range cmds {
+				if op.V&(1<<uint(i)) != 0 || i == op.Cmd%4 {
+					pc = append(pc, fmt.Sprint(cm))
+					pcmds = append(pcmds, cm)
+				}
+			}
+			_ = os.Setenv("CONDOR_INHERIT", "4242 "+paddr)
+			_ = os.Setenv("CONDOR_PRIVATE_INHERIT", "SessionKey:"+parentSID+`#[Encryption="YES";Integrity="YES";CryptoMethodsList="AES";ValidCommands="`+strings.Join(pc, ",")+`"]#`+
+				"0123456789abcdef0123456789abcdef0123456789abcdef"+" FamilySessionKey:"+familySID+`#[Encryption="YES";Integrity="YES";CryptoMethodsList="AES"]#`+
+				"fedcba9876543210fedcba9876543210fedcba9876543210")
+			security.VerifResetProcessState()
+			n, err := security.VerifRegisterInherited(cache)
+			_ = os.Unsetenv("CONDOR_INHERIT")
+			_ = os.Unsetenv("CONDOR_PRIVATE_INHERIT")
+			security.VerifResetProcessState() // (the process-wide cache starts over too: for the servers of this history that is a restart)
+			if err != nil || n != 2 {
+				return fail("C07 harness: registering two inherited sessions gave %d, %v", n, err)
+			}
+			for _, cm := range pcmds {
+				md.route[routeKey{"", paddr, cm}] = parentSID
+			}
+			md.clientLive[parentSID], md.clientLive[familySID] = true, true
+			md.owner[parentSID], md.owner[familySID] = routeKey{"", paddr, pcmds[0]}, routeKey{"", paddr, 60008}
+			// the routes as the cache itself reports them
+			for _, cm := range cmds {
+				e, ok := cache.LookupByCommand("", paddr, fmt.Sprint(cm))
+				want, has := md.route[routeKey{"", paddr, cm}]
+				switch {
+				case ok && (!has || e.ID() != want) && (e.ID() == parentSID || e.ID() == familySID):
+					return fail("after inheriting a parent session valid for %v and a family session valid for nothing, command %d at %s leads to %s", pcmds, cm, paddr, e.ID())
+				case has && want == parentSID && (!ok || e.ID() != parentSID):
+					return fail("the inherited parent session declares command %d valid but the route at %s does not lead to it", cm, paddr)
+				}
+			}
+			st.crossTriple = true
 		case "mint":
 			// a session pre-registered by the application for outbound use (a startd's claim session towards
 			// its schedd): filed under (tag, address, command) like any other
@@ -545,7 +591,7 @@ func genCase(t *rapid.T) Case {
 	c.Shared = rapid.Bool().Draw(t, "shared")
 	n := rapid.IntRange(3, 12).Draw(t, "nops")
 	for i := 0; i < n; i++ {
-		k := rapid.SampledFrom([]string{"handshake", "handshake", "handshake", "handshake", "handshake", "policy", "restart", "break", "expire", "invalidate", "sweep", "mint"}).Draw(t, "op")
+		k := rapid.SampledFrom([]string{"handshake", "handshake", "handshake", "handshake", "handshake", "policy", "restart", "break", "expire", "invalidate", "sweep", "mint", "inherit"}).Draw(t, "op")
 		c.Ops = append(c.Ops, Op{K: k, Tag: rapid.IntRange(0, 2).Draw(t, "tag"), Srv: rapid.IntRange(0, 2).Draw(t, "srv"),
 			Cmd: rapid.IntRange(0, 3).Draw(t, "cmd"), API: rapid.IntRange(0, 1).Draw(t, "api"), V: rapid.IntRange(0, 15).Draw(t, "v")})
 	}
@@ -679,6 +725,9 @@ func TestC07Directed(t *testing.T) {
 			cases = append(cases, Case{Ops: []Op{hs(tg, 0, 0, api), {K: "expire", V: 1}, hs(tg, 0, 0, api), {K: "sweep"}, hs(tg, 0, 1, api)}})
 			cases = append(cases, Case{Ops: []Op{{K: "policy", Srv: 0, V: 15}, hs(tg, 0, 0, api), {K: "expire", V: 1}, hs(tg, 0, 2, api), {K: "sweep"}, {K: "invalidate"}, {K: "sweep"}}})
 			cases = append(cases, Case{Ops: []Op{hs(tg, 0, 0, api), {K: "expire", V: 3}, {K: "sweep"}, hs(tg, 0, 1, api)}})
+			for v := 0; v < 4; v++ { // inherited parent + family sessions, then handshakes for declared and undeclared commands
+				cases = append(cases, Case{Ops: []Op{{K: "inherit", Srv: 0, Cmd: v, V: v * 5}, hs(tg, 0, v, api), hs(tg, 0, (v+1)%4, api), hs(0, 0, (v+2)%4, api), hs(0, 1, v, api)}})
+			}
 			cases = append(cases, Case{Ops: []Op{hs(tg, 0, 0, api), hs(tg, 1, 0, api), {K: "expire", V: 3}, {K: "sweep"}, {K: "expire", V: 3}, {K: "sweep"}, hs(tg, 0, 1, api)}})
 			cases = append(cases, Case{Ops: []Op{hs(tg, 0, 0, api), {K: "invalidate"}, hs(tg, 0, 0, api), hs(tg, 0, 1, api)}})
 			for other := 0; other < 3; other++ { // a minted session under tg; handshakes under every tag, another server, another command
